@@ -5,6 +5,7 @@
 -/
 import BurrowVerif.Proofs.Notifier
 import BurrowVerif.Proofs.NotifierRefresh
+import BurrowVerif.Proofs.NotifierOps
 
 namespace Burrow.Props.C13
 open Burrow Burrow.Notifier Burrow.Spec.Notifier
@@ -109,5 +110,46 @@ theorem stalled_refresh_keeps_incident (listing : List (String × List String)) 
       by_cases hf : listing.any (·.1 == k'.1) = true
       · simp only [List.filter_cons, hf, if_true, lookupG, if_neg hk]; exact ih hr
       · simp only [List.filter_cons, hf]; exact ih hr
+
+/-- **a refresh that storage answered starts a record for every group in the answer**: a group that
+    appears in storage is picked up by the next answered refresh and is evaluated from then on -/
+theorem refresh_picks_up_new_groups (listing : List (String × List String)) (answered : String → Bool) (s : NState)
+    (c g : String) (gs : List String)
+    (hnd : (listing.map (·.1)).Nodup) (hc : (c, gs) ∈ listing) (ha : answered c = true) (hg : g ∈ gs) :
+    (lookupG (c, g) (refresh listing answered s)).isSome :=
+  refresh_adds_listed listing answered s c g gs hnd hc ha hg
+
+/-- **… and drops the record of every group that is not in it** — a deleted or expired group stops being
+    evaluated (and its incident ends) at the next answered refresh, not before -/
+theorem refresh_drops_groups_that_left (listing : List (String × List String)) (answered : String → Bool)
+    (s : NState) (k : String × String) (gs : List String)
+    (hnd : (listing.map (·.1)).Nodup) (hc : (k.1, gs) ∈ listing) (ha : answered k.1 = true) (hg : k.2 ∉ gs) :
+    lookupG k (refresh listing answered s) = none :=
+  refresh_drops_unlisted_group listing answered s k gs hnd hc ha hg
+
+/-- the records of a cluster that storage no longer lists go whatever was answered -/
+theorem refresh_drops_clusters_that_left (listing : List (String × List String)) (answered : String → Bool)
+    (s : NState) (k : String × String) (hc : ∀ cg ∈ listing, cg.1 ≠ k.1) :
+    lookupG k (refresh listing answered s) = none :=
+  refresh_drops_unlisted_cluster listing answered s k hc
+
+example : refresh [("c", ["g", "h"]), ("d", [])] (fun _ => true) [(("c", "g"), { GroupRec.fresh with id := some 7 }), (("c", "x"), GroupRec.fresh), (("e", "y"), GroupRec.fresh)] =
+    [(("c", "g"), { GroupRec.fresh with id := some 7 }), (("c", "h"), GroupRec.fresh)] := by decide
+
+/-- **… and the refreshes may come anywhere between the evaluation results of any groups**: for a group
+    that stays in storage's listing through every refresh of a history (whichever of them storage
+    answered), the notifications are exactly those of the group's own evaluation history — so every
+    single-group theorem of C13 and C14 (one identity from open to close, exactly one close, rate
+    limits, every incident announced) holds across refreshes -/
+theorem run_projection_through_refreshes (cfgs : List ModuleCfg) (s : NState) (h : List Proofs.Notifier.NOp)
+    (k : String × String) (g : GroupRec) (hg : lookupG k s = some g) (hs : Proofs.Notifier.StaysListed k h) :
+    Proofs.Notifier.projectOps k h (Proofs.Notifier.runOps cfgs s h) =
+      runG cfgs g (Proofs.Notifier.eventsOfOps k h) :=
+  Proofs.Notifier.runOps_projection cfgs s h k g hg hs
+
+example : Proofs.Notifier.StaysListed ("c", "g")
+    [.ev ("c", "g") (ev .err 10000 1), .refresh [("c", ["g", "h"])] (fun _ => true), .ev ("c", "h") (ev .err 11000 2),
+     .refresh [("c", [])] (fun _ => false), .ev ("c", "g") (ev .ok 20000 3)] := by
+  simp [Proofs.Notifier.StaysListed]
 
 end Burrow.Props.C13
